@@ -7,7 +7,7 @@ Op              term | (u neg|par|len) | (bin lt|le|gt|ge|eq|contains|prefix|suf
 Expression      (e op…)
 Rule            (r pred (pred…) (expr…))
 -/
-import BiscuitModel.Model.Datalog
+import BiscuitModel.Model.Authorizer
 import BiscuitModel.Driver.Sexp
 
 namespace Biscuit.Driver
@@ -169,5 +169,64 @@ def encRunErr : Option RunErr → String
 
 def encFacts (l : List (Fact Val)) : String :=
   "(" ++ " ".intercalate (sortDedup (l.map encFact)) ++ ")"
+
+def fieldOf (name : String) : List Sexp → Option (List Sexp)
+  | [] => none
+  | .list (.atom n :: rest) :: more => if n == name then some rest else fieldOf name more
+  | _ :: more => fieldOf name more
+
+def decCheck : Sexp → Option Check
+  | .list (.atom "check" :: qs) => (qs.mapM decRule).map fun q => { queries := q }
+  | _ => none
+
+def decPolicy : Sexp → Option Policy
+  | .list (.atom "allow" :: qs) => (qs.mapM decRule).map fun q => { kind := .allow, queries := q }
+  | .list (.atom "deny" :: qs) => (qs.mapM decRule).map fun q => { kind := .deny, queries := q }
+  | _ => none
+
+def decBlock : Sexp → Option Block
+  | .list (.atom "block" :: fields) => do
+    let fs ← (← fieldOf "facts" fields).mapM decFact
+    let rs ← (← fieldOf "rules" fields).mapM decRule
+    let cs ← (← fieldOf "checks" fields).mapM decCheck
+    pure { facts := insertAll [] fs, rules := rs, checks := cs }
+  | _ => none
+
+def decToken : Sexp → Option Token
+  | .list (.atom "token" :: a :: bs) => do
+    let auth ← decBlock a
+    let blocks ← bs.mapM decBlock
+    pure { authority := auth, blocks := blocks }
+  | _ => none
+
+def decAuthOp : Sexp → Option AuthOp
+  | .list [.atom "addfact", f] => (decFact f).map AuthOp.addFact
+  | .list [.atom "addrule", r] => (decRule r).map AuthOp.addRule
+  | .list [.atom "addcheck", c] => (decCheck c).map AuthOp.addCheck
+  | .list [.atom "addpolicy", p] => (decPolicy p).map AuthOp.addPolicy
+  | .list [.atom "authorize"] => some .authorize
+  | .list [.atom "query", r] => (decRule r).map AuthOp.query
+  | .list [.atom "reset"] => some .reset
+  | .list [.atom "saveload", .atom j] => (j.toNat?).map AuthOp.saveLoad
+  | _ => none
+
+def encCheckId : CheckId → String
+  | .authorizer i => s!"a{i}"
+  | .block b i => s!"b{b}.{i}"
+
+def encVerdict : Verdict → String
+  | .ok => "ok"
+  | .denied => "denied"
+  | .noMatch => "nomatch"
+  | .checksFailed ids => "checks[" ++ ",".intercalate (ids.map encCheckId) ++ "]"
+  | .runError e => encRunErr (some e)
+
+def encAuthOut : AuthOut → Option String
+  | .none => none
+  | .verdict v => some (encVerdict v)
+  | .facts fs => some ("facts:" ++ encFacts fs)
+  | .queryErr e => some ("qerr:" ++ encRunErr (some e))
+  | .saved true => some "saved"
+  | .saved false => some "refused"
 
 end Biscuit.Driver
